@@ -23,8 +23,62 @@ thread_local! {
 pub fn observe(args: Vec<String>, rets: Vec<String>) {
     OBSERVED.with(|o| *o.borrow_mut() = Some((args, rets)));
 }
-fn take_observed() -> Option<(Vec<String>, Vec<String>)> {
+pub fn take_observed() -> Option<(Vec<String>, Vec<String>)> {
+    if let Some(f) = PLUGIN_OBSERVER.with(|p| *p.borrow()) {
+        // the implementation ran inside a shared library, which has its own copy of `OBSERVED`
+        let mut buf = vec![0u8; 1 << 20];
+        let n = unsafe { f(buf.as_mut_ptr(), buf.len()) };
+        if n == 0 {
+            return None;
+        }
+        let text = String::from_utf8_lossy(&buf[..n.min(buf.len())]).to_string();
+        let (a, b) = text.split_once('\x1e')?;
+        let split = |x: &str| if x.is_empty() { Vec::new() } else { x.split('\x1f').map(|s| s.to_string()).collect() };
+        return Some((split(a), split(b)));
+    }
     OBSERVED.with(|o| o.borrow_mut().take())
+}
+
+type ObserverFn = unsafe extern "C" fn(*mut u8, usize) -> usize;
+thread_local! {
+    static PLUGIN_OBSERVER: RefCell<Option<ObserverFn>> = const { RefCell::new(None) };
+}
+
+/// body of the `sfv_take_observed` symbol every plug-in exports: "args␟args␞rets␟rets", 0 if nothing was observed
+pub fn export_observed(buf: *mut u8, cap: usize) -> usize {
+    match OBSERVED.with(|o| o.borrow_mut().take()) {
+        None => 0,
+        Some((a, b)) => {
+            let text = format!("{}\x1e{}", a.join("\x1f"), b.join("\x1f"));
+            let n = text.len().min(cap);
+            unsafe { std::ptr::copy_nonoverlapping(text.as_ptr(), buf, n) };
+            n
+        }
+    }
+}
+
+/// plugins/v<j> as built next to the harness binary (`SFV_PLUGIN_DIR` overrides the directory)
+pub fn plugin_path(j: u32) -> String {
+    let dir = std::env::var("SFV_PLUGIN_DIR").ok().map(std::path::PathBuf::from).unwrap_or_else(|| {
+        std::env::current_exe().ok().and_then(|p| p.parent().map(|d| d.to_path_buf())).unwrap_or_default()
+    });
+    dir.join(format!("libsfv_plugin_v{}.so", j)).to_string_lossy().to_string()
+}
+
+/// observations of the following calls on this thread come from plug-in `j` (`None`: from this process)
+pub fn use_plugin_observer(j: Option<u32>) -> Result<(), String> {
+    let f = match j {
+        None => None,
+        Some(j) => unsafe {
+            let lib = libloading::Library::new(plugin_path(j)).map_err(|e| e.to_string())?;
+            let sym: libloading::Symbol<ObserverFn> = lib.get(b"sfv_take_observed\0").map_err(|e| e.to_string())?;
+            let f: ObserverFn = *sym;
+            std::mem::forget(lib);
+            Some(f)
+        },
+    };
+    PLUGIN_OBSERVER.with(|p| *p.borrow_mut() = f);
+    Ok(())
 }
 
 #[allow(clippy::too_many_arguments)]
@@ -35,6 +89,7 @@ pub fn run_pair<C: ?Sized + AbiExportable + 'static, TI: ZooVal, TJ: ZooVal>(
     connect: fn() -> Result<AbiConnection<C>, SavefileError>,
     echo: fn(&AbiConnection<C>, TI, &TI, u64) -> TI,
     twice: fn(&AbiConnection<C>, &TI, TI) -> (TI, TI),
+    with_cb: fn(&AbiConnection<C>, TI, &dyn Fn(TI) -> TI) -> TI,
     added: Option<fn(&AbiConnection<C>, u32) -> u32>,
     r: &mut Rng,
 ) -> Vec<String> {
@@ -103,6 +158,37 @@ pub fn run_pair<C: ?Sized + AbiExportable + 'static, TI: ZooVal, TJ: ZooVal>(
         }
         (Ok(_), None) => out.push(format!("!C09 implementation-not-invoked fam={} caller={} impl={} method=twice", fam, i, j)),
     }
+    // with_cb(a, |x| y) -> T: `a` and the closure's result travel to the implementation, the closure's argument
+    // and the method's result travel back
+    let a = TI::gen(r, sz);
+    let y = TI::gen(r, sz);
+    let (a_sx, y_sx) = (a.sx(false), y.sx(false));
+    let got_x: RefCell<Option<String>> = RefCell::new(None);
+    let y_cell = RefCell::new(Some(y));
+    let res = catch_unwind(AssertUnwindSafe(|| {
+        with_cb(&conn, a, &|x: TI| {
+            *got_x.borrow_mut() = Some(x.sx(true));
+            y_cell.borrow_mut().take().expect("closure called once")
+        })
+    }));
+    let obs = take_observed();
+    match (res, obs, got_x.borrow().clone()) {
+        (Ok(ret), Some((seen, sent)), Some(x_seen)) => {
+            out.push(format!(
+                "(abicall {} {} {} {} ({} {}) ({}))\t(ok ({}) ({} {}))",
+                ti, tj, i, j, a_sx, y_sx, sent.join(" "), seen.join(" "), x_seen, ret.sx(true)
+            ));
+            out.push("#stat closure-calls 1".into());
+        }
+        (Err(_), obs, _) => {
+            out.push(format!(
+                "!C10 call-panic fam={} caller={} impl={} method=with_cb implementation-ran={} got={}",
+                fam, i, j, obs.is_some(), panic_class(&last_panic())
+            ));
+        }
+        (Ok(_), None, _) => out.push(format!("!C09 implementation-not-invoked fam={} caller={} impl={} method=with_cb", fam, i, j)),
+        (Ok(_), Some(_), None) => out.push(format!("!C09 closure-not-invoked fam={} caller={} impl={} method=with_cb", fam, i, j)),
+    }
     // a method the implementation may lack
     if let Some(added) = added {
         let x = r.next() as u32;
@@ -125,5 +211,82 @@ pub fn run_pair<C: ?Sized + AbiExportable + 'static, TI: ZooVal, TJ: ZooVal>(
             }
         }
     }
+    out
+}
+
+/// `load_shared_library` itself: failures are errors (never panics), they leave the library and entry caches usable,
+/// repeated and concurrent loads of one library give working, independent connections
+pub fn plugin_probes(seed: u64) -> Vec<String> {
+    use crate::zoo_gen::{FamAdd_v0, FamAdd_v1};
+    let mut out = Vec::new();
+    let mut probe = |what: &str, f: &dyn Fn() -> Result<(), String>| {
+        let tag = if what.starts_with("concurrent") { "C16" } else { "C09" };
+        match catch_unwind(AssertUnwindSafe(f)) {
+            Ok(Ok(())) => out.push(format!("#stat plugin-probe-{} 1", what)),
+            Ok(Err(e)) => out.push(format!("!{} plugin-probe-failed what={} got={}", tag, what, e.replace(' ', "_"))),
+            Err(_) => out.push(format!("!{} plugin-probe-panics what={} got={}", tag, what, panic_class(&last_panic()))),
+        }
+    };
+    probe("missing-file-is-error", &|| {
+        match AbiConnection::<dyn FamAdd_v1::IFamAdd>::load_shared_library("/nonexistent/libsfv_none.so") {
+            Err(SavefileError::LoadLibraryFailed { .. }) => Ok(()),
+            Err(e) => Err(format!("unexpected error {}", err_class(&e))),
+            Ok(_) => Err("a missing file gave a connection".into()),
+        }
+    });
+    probe("missing-symbol-is-error", &|| {
+        // version 0 of the library exports no interface named like this trait
+        match AbiConnection::<dyn crate::abitraits::Service>::load_shared_library(&plugin_path(0)) {
+            Err(SavefileError::LoadSymbolFailed { .. }) => Ok(()),
+            Err(e) => Err(format!("unexpected error {}", err_class(&e))),
+            Ok(_) => Err("a missing symbol gave a connection".into()),
+        }
+    });
+    probe("loads-after-failures", &|| {
+        let c = AbiConnection::<dyn FamAdd_v1::IFamAdd>::load_shared_library(&plugin_path(1)).map_err(|e| err_class(&e))?;
+        let x = seed as u32;
+        let y = FamAdd_v1::IFamAdd::added_v1(&c, x);
+        if y != x.wrapping_add(1) {
+            return Err(format!("added_v1({}) = {}", x, y));
+        }
+        Ok(())
+    });
+    probe("repeated-loads-independent", &|| {
+        let mut conns = Vec::new();
+        for _ in 0..8 {
+            conns.push(AbiConnection::<dyn FamAdd_v1::IFamAdd>::load_shared_library(&plugin_path(1)).map_err(|e| err_class(&e))?);
+        }
+        // dropping some of them must leave the others usable
+        conns.truncate(3);
+        for (k, c) in conns.iter().enumerate() {
+            let x = (seed as u32).wrapping_add(k as u32);
+            if FamAdd_v1::IFamAdd::added_v1(c, x) != x.wrapping_add(1) {
+                return Err("wrong result after dropping sibling connections".into());
+            }
+        }
+        Ok(())
+    });
+    probe("concurrent-loads", &|| {
+        let mut hs = Vec::new();
+        for t in 0..12u32 {
+            hs.push(std::thread::spawn(move || -> Result<(), String> {
+                for k in 0..20u32 {
+                    let j = (t + k) % 2 + 1;
+                    let c = AbiConnection::<dyn FamAdd_v1::IFamAdd>::load_shared_library(&plugin_path(j)).map_err(|e| err_class(&e))?;
+                    let x = t * 1000 + k;
+                    if FamAdd_v1::IFamAdd::added_v1(&c, x) != x + 1 {
+                        return Err(format!("thread {} load {}: wrong result", t, k));
+                    }
+                    let c0 = AbiConnection::<dyn FamAdd_v0::IFamAdd>::load_shared_library(&plugin_path(j)).map_err(|e| err_class(&e))?;
+                    drop(c0);
+                }
+                Ok(())
+            }));
+        }
+        for h in hs {
+            h.join().map_err(|_| "a loading thread panicked".to_string())??;
+        }
+        Ok(())
+    });
     out
 }
